@@ -40,7 +40,7 @@ func TestC09(t *testing.T) {
 			"key bounds) and keep iterators open across later writes and commits, stepping them later; restart the node (views are closed "+
 			"first). Oracle: per-height map snapshots taken by the harness at commit time; every read through a view of height h must equal "+
 			"model(h). non-trivial = a read through a view after at least one later commit that changed a key inside the read range",
-		map[string]float64{"read-after-later-commit": 0.4, "view-older-than-latest": 0.5, "cachemulti-view": 0.2, "iterator-open-across-commit": 0.1, "uncommitted-writes-pending": 0.3},
+		map[string]float64{"read-after-later-commit": 0.25, "view-older-than-latest": 0.4, "cachemulti-view": 0.2, "iterator-open-across-commit": 0.1, "uncommitted-writes-pending": 0.2},
 		func(rt *rapid.T, c *harness.Case) {
 			nStores := rapid.IntRange(2, 3).Draw(rt, "nStores")
 			h := newHist(nStores, 0)
